@@ -7,6 +7,7 @@ import ast
 import z3
 
 from .repo import ReConst, ConstDict, Opaque, FunctionInfo, ClassInfo
+from .values import SRec
 from .values import (Sym, SStr, SInt, SBool, SBytes, SStrList, Obj, DictV, ListV, SetV, BoundMethod,
                      BuiltinMethod, NativeFn, OpaqueFn, Lambda, Namespace, TypeV, ExcClass, ExcValue,
                      is_strlike, is_intlike, is_boollike, zs, zi, zb, mk_str, mk_int, mk_bool)
@@ -22,6 +23,8 @@ def pfx_kind(l):
         return "chars"
     if srt == z3.SeqSort(z3.StringSort()):
         return "strs"
+    if srt == z3.SeqSort(z3.IntSort()):
+        return "nodes"
     return "any"
 
 
@@ -31,7 +34,18 @@ def pfx_elem(l, i):
         return mk_str(z3.SubString(l.prefix, i, 1))
     if k == "strs":
         return mk_str(l.prefix[i])
+    if k == "nodes":
+        return node_rec(l.prefix[i])
     raise OutOfReach("element of an uninspected list prefix")
+
+
+NODE_ATTRS = {"name": "str", "namespace": "str", "nameTuple": "pair:namespace,name"}
+
+
+def node_rec(zid):
+    """an element of the stack of open elements: identified by an integer, its name and namespace are uninterpreted
+    functions of the identity (elements are not renamed while on the stack)"""
+    return SRec(zid, "Node", NODE_ATTRS)
 
 
 def pfx_joined(ctx, l):
@@ -794,6 +808,12 @@ def binop(I, op, a, b, node=None):
             return mk_int(zi(a) / (1 << b))      # valid for a >= 0 and for negative a (floor division)
         if isinstance(op, ast.BitAnd) and is_intlike(a) and isinstance(b, int) and (b & (b + 1)) == 0:
             return mk_int(zi(a) % (b + 1))       # a & (2^k - 1) == a mod 2^k (also for negative a in Python)
+        if is_boollike(a) and is_boollike(b) and isinstance(op, (ast.BitXor, ast.BitAnd, ast.BitOr)):
+            # bool ^ bool, & and | are the logical operators (the result is a bool in Python too)
+            za, zb_ = zb(a), zb(b)
+            if isinstance(op, ast.BitXor):
+                return mk_bool(z3.Xor(za, zb_))
+            return mk_bool(z3.And(za, zb_) if isinstance(op, ast.BitAnd) else z3.Or(za, zb_))
         if isinstance(op, ast.BitOr) and isinstance(a, int) and is_intlike(b):
             raise OutOfReach("symbolic |")
         raise OutOfReach("bit operator on symbolic values")
@@ -1792,6 +1812,22 @@ def _appended(I, args, kwargs):
         if same and len(new.items) >= len(old.items):
             return ListV(new.items[len(old.items):])
     raise OutOfReach("appended() of lists that are not extensions of one another")
+
+
+@_native("is_prefix_list")
+def _is_prefix_list(I, args, kwargs):
+    """is_prefix_list(a, b): list a is an initial segment of list b (lists with symbolic prefixes and no
+    concrete items, or concrete lists compared by identity)"""
+    a, b = args
+    if isinstance(a, ListV) and isinstance(b, ListV):
+        if a.prefix is not None and b.prefix is not None and not a.items and not b.items:
+            return mk_bool(z3.PrefixOf(a.prefix, b.prefix))
+        if a.prefix is None and b.prefix is None:
+            if len(a.items) > len(b.items):
+                return False
+            r = [I.same(x, y) for x, y in zip(a.items, b.items)]
+            return z_and([x if not isinstance(x, bool) else z3.BoolVal(x) for x in r]) if r else True
+    raise OutOfReach("is_prefix_list of %r, %r" % (a, b))
 
 
 @_native("same_object")
